@@ -8,6 +8,7 @@ ENGINES = [
     {"name": "E1", "path": "bppverif/e1.py", "serves_properties": [], "kind_free_text": "CFG queries: guard facts on branch edges, dominance by guards, must-pass-through, who-writes"},
     {"name": "E3", "path": "bppverif/orderai.py", "serves_properties": [], "kind_free_text": "abstract interpretation of comparison-only functions over all order types (exact for its clause)"},
     {"name": "E6", "path": "bppverif/e6.py", "serves_properties": ["C15"], "kind_free_text": "cache-invalidation completeness: interprocedural summaries of dependency writes and invalidations over the CFG"},
+    {"name": "E8", "path": "bppverif/c18.py", "serves_properties": ["C18", "C09"], "kind_free_text": "kind / polarity typing of arguments (sampler conventions, strict vs inclusive flags)"},
     {"name": "E5", "path": "bppverif/c02.py", "serves_properties": ["C02"], "kind_free_text": "sibling / table agreement: validation loop vs apply loop, copy vs share functions"},
 ]
 
@@ -80,6 +81,13 @@ CLAIMED["C09"] = dict(
            "every member caching a parameter or derived from one in the constructor is refreshed before the rebuild; rebuilds clear before filling; no access at an index equal to the established size; only library "
            "exceptions; booleans handed to 'strict' parameters have strict polarity and class values used as bounds are included; value lookups compare every interior bound; copy constructor and operator= agree."),
     note=TB + "Not decided: probabilities summing to one, values inside their interval, discrete mean, cumulative/quantile consistency, stick-breaking weights of mixtures (numerical).")
+
+CLAIMED["C18"] = dict(
+    engine="E8+E1",
+    technique="static analysis: kind typing (MEAN/RATE/SCALE/VARIANCE/STDDEV/SHAPE with 1/x, sqrt, square conversions) of arguments reaching std distribution constructors and RandomTools samplers, conventions inferred from the library's cumulative functions and @param docs; guard dominance for refusals; who-uses rule for the random engine",
+    level=("Static rules decide, independent of seed and sample: a mean argument reaches the std sampler as a mean, a rate as a rate, a variance as a variance, in RandomTools and in every distribution's randC(); "
+           "emptiness and over-long requests are refused before any draw; every draw in the library is driven by RandomTools::DEFAULT_GENERATOR, which setSeed seeds, and no other randomness source exists."),
+    note=TB + "Not decided: every distributional statement (goodness of fit), multinomial and weighted picks, contingency-table margins, p-value range; weighted picks assume size(w) == size(v); Gamma randC tests the un-shifted draw against the domain (noted).")
 
 NOT_APPLICABLE = {
     "C06": ("every clause is a floating-point identity of the JAMA QL/QR iterations (A.V = V.D within k.eps, ordering, trace/determinant); correctness lies in rotation coefficients and "
